@@ -36,7 +36,11 @@ add("names_cu_12", ["C01", "C02", "C18"], timeout=600, est=20, path="registry::h
 
 
 # ---------------------------------------------------------------- C03 leaf readers
-add("names_readers_6", ["C03"], tier="quick", timeout=1500, est=400, mem_gb=24, path="registry::h_c03::proofs::",
+add("names_readers_5", ["C03"], tier="quick", timeout=900, est=400, mem_gb=24, path="registry::h_c03::proofs::",
+    funcs=["Compress::check_compressed_name", "RRIterator::skip_name", "Compress::copy_uncompressed_name", "Compress::raw_name_len_after_decompression", "Compress::raw_name_len", "Compress::raw_name_to_str"],
+    bound="the trusted name readers on every name the validator accepts in every buffer of length <= 5 (all bytes, length, offset symbolic); unwind 8",
+    assume=["names the validator rejects are not explored further (the readers are only ever called on validated names)"])
+add("names_readers_6", ["C03"], tier="thorough", timeout=5400, est=2000, mem_gb=24, path="registry::h_c03_t::proofs::",
     funcs=["Compress::check_compressed_name", "RRIterator::skip_name", "Compress::copy_uncompressed_name", "Compress::raw_name_len_after_decompression", "Compress::raw_name_len", "Compress::raw_name_to_str"],
     bound="the trusted name readers on every name the validator accepts in every buffer of length <= 6 (all bytes, length, offset symbolic); unwind 9",
     assume=["names the validator rejects are not explored further (the readers are only ever called on validated names)"])
@@ -58,6 +62,7 @@ _a15 = ["c_abi::throw_err is replaced by a stub returning -1 (its thread_local! 
         "Kani's pointer checks stay on: a write outside the caller's exact-size buffers is a failed check"]
 for n, what in (("cabi_read_an", "header accessors/setters with any arguments and a read-only walk of the answer section through the section callback (name, rr_type, rr_class, rr_ttl, rr_ip) vs the native API on a twin; skeleton r_a_aaaa"),
                 ("cabi_read_ar_opt", "same on the additional section of skeleton r_optmid (OPT in the middle is skipped)"),
+                ("cabi_read_ar_optfirst", "same on the additional section of skeleton r_optfirst (OPT first is skipped)"),
                 ("cabi_write_ttl_ip_0", "set_rr_ttl(any) + set_rr_ip(any) on answer 0 (A) inside the callback vs native"),
                 ("cabi_write_ttl_ip_1", "set_rr_ttl(any) + set_rr_ip(any) on answer 1 (AAAA) inside the callback vs native"),
                 ("cabi_set_raw_name", "set_raw_name(valid raw name) on answer 0 inside the callback vs native"),
@@ -93,7 +98,8 @@ _tpl = {"ttl_digit": "last TTL digit any ASCII byte", "ttl_edge": "TTL 429496729
         "separator": "byte between TTL and class: accepted iff space or tab", "keyword_case": "second letter of IN: accepted iff N or n",
         "mx_pref_edge": "MX preference 6553X: accepted iff X <= '5'", "txt_char": "one TXT character: accepted iff printable ASCII other than backslash and quote",
         "txt_escape": "TXT escape \\25X: accepted iff X <= '5'", "ds_hex": "second hex digit of a DS digest: accepted iff hex digit (odd length otherwise)",
-        "owner_char": "second character of the owner name", "soa_counter": "last SOA counter digit"}
+        "owner_char": "second character of the owner name", "soa_counter": "last SOA counter digit",
+        "txt_escape_first": "TXT escape \\\\X55: accepted iff X <= '2'"}
 for k, v in _tpl.items():
     add("synth_tpl_" + k, ["C13"], tier="quick", timeout=1200, est=200, mem_gb=24, path="registry::h_c13::proofs::", funcs=_f13p,
         bound="RR::from_string on a concrete record text with one symbolic byte X (all 128 ASCII values): " + v + "; accepted <=> in grammar, wire form == RFC 1035 encoding")
